@@ -22,6 +22,8 @@ def mkval(spec):
         return {'k': (1,)}
     if spec == 'point':
         return vtargets.Point(1, 2)
+    if spec == 'needsargs':
+        return vtargets.NeedsArgs(7, 'here')      # can be pickled by the child, cannot be rebuilt by the parent
     if isinstance(spec, int):
         return spec
     raise ValueError(spec)
